@@ -447,7 +447,7 @@ def source_stamp():
                 if f.endswith((".rs", ".ncl", ".lalrpop", ".toml")):
                     files.append(os.path.join(dp, f))
     files += [os.path.join(core.REPO, "Cargo.lock"), os.path.join(core.HARNESS, "src", "bin", "c01.rs"),
-              os.path.join(core.HARNESS, "src", "eval.rs"), os.path.join(core.HARNESS, "Cargo.toml")]
+              os.path.join(core.HARNESS, "src", "eval.rs")]
     for f in sorted(files):
         h.update(f.encode())
         try:
